@@ -153,6 +153,7 @@ func c07(r *Run) {
 	escRuns(r, []string{"j", "q"}, []string{"jsonEscape", "jsonQuote"}, "jsonquote")
 	escConcurrent(r, append(forms, &escForm{Name: "region", Tpl: "{% jsonquote %}{%= v %}|{%= v %}{% endjsonquote %}"}), r.N(4000, 100000))
 	escViaCtxVar(r, []string{"jsonEscape", "jsonQuote", "je", "jq"})
+	modifierSpellings(r, []string{"jsonEscape", "jsonQuote", "je", "jq"}, "{% jsonquote %}", "{% endjsonquote %}")
 }
 
 func attrExpected(in []byte) []byte {
@@ -222,6 +223,7 @@ func c08(r *Run) {
 	escRuns(r, []string{"h", "a"}, []string{"htmlEscape", "attrEscape"}, "htmlescape")
 	escConcurrent(r, append(forms, &escForm{Name: "region", Tpl: "{% htmlescape %}{%= v %}|{%= v %}{% endhtmlescape %}"}), r.N(4000, 100000))
 	escViaCtxVar(r, []string{"htmlEscape", "attrEscape", "he", "ae"})
+	modifierSpellings(r, []string{"htmlEscape", "attrEscape", "he", "ae"}, "{% htmlescape %}", "{% endhtmlescape %}")
 }
 
 func natsOf(s string) ([]int, bool) {
@@ -325,5 +327,6 @@ func c10(r *Run) {
 	runSessions(r, cases, outputDiffers)
 	escRuns(r, []string{"J", "c"}, []string{"jsEscape", "cssEscape"}, "")
 	escViaCtxVar(r, []string{"jsEscape", "cssEscape", "jse", "ce"})
+	modifierSpellings(r, []string{"jsEscape", "cssEscape", "jse", "ce"}, "", "")
 	escConcurrent(r, forms, r.N(4000, 100000))
 }
